@@ -7,6 +7,13 @@ coq/Model/PCovR.v fed with numpy's decompositions of the matrices the model form
 hints, residuals recorded), pcovr_covariance / pcovr_kernel are compared with cov_prog /
 kern_prog, and the model's two routes are compared with each other.  The truncated solvers
 (arpack, randomized) are compared with the full solver on the implementation side only.
+
+Extension (round 3, helpers in harness/pcovr_c03.py, model in coq/Model/PCovRC03.v): every fit is
+additionally compared ENTRY BY ENTRY (pxt_, ptx_, pty_, transform(X), transform(Xn)) with the model
+run on the full svd of its modified matrix followed by the model's own svd_flip and truncation;
+the regressor's normal equations are a checked residual; the two routes' (and solvers')
+transform(X) are compared column by column up to one sign; integer-valued exactly centred data sets
+are fitted as int64 / int32 / float32 arrays and nested lists and compared with the float64 fit.
 """
 import warnings
 
@@ -14,6 +21,7 @@ import numpy as np
 
 from harness import common as C
 from harness import pcovr_common as P
+from harness import pcovr_c03 as X3
 
 MAX_REPORTS = 25          # replay files written per run (a broken tree fails hundreds of cases)
 
@@ -46,6 +54,15 @@ def gen_groups(ctx):
         if gi % 6 == 2:
             base["a"] = 1.0
         if gi % 9 == 4:
+            base["a"] = 0.0
+        groups.append((ds, base))
+    # integer-valued, exactly centred data: the input-dtype family (int64 / int32 / float32 / lists)
+    nint = 16 if ctx.quick else 80
+    for gi in range(nint):
+        ds = X3.gen_int_dataset(rng, family=X3.INT_FAMILIES[gi % len(X3.INT_FAMILIES)])
+        base = P.gen_config(rng, ds, reg=["default", "ridge", "linreg", "prefit", "pre_W", "pre_noW",
+                                          "ridge", "default"][gi % 8])
+        if gi % 5 == 3:
             base["a"] = 0.0
         groups.append((ds, base))
     return groups
@@ -106,6 +123,15 @@ def route_oracle(ds, cfg, quick_solvers=("arpack", "randomized")):
     bad = compare_obs(rf["obs"], rs["obs"], inv)
     if bad:
         return "feature space and sample space disagree on %s (max dev %.3g)" % bad, info
+    # the latent coordinates themselves, entry by entry, up to the sign of each component
+    # (C03_latent_up_to_sign: needs simple retained eigenvalues)
+    info["sign_checked"] = False
+    if X3.simple_retained(Sk, k):
+        info["sign_checked"] = True
+        sg = X3.sign_check(rf["T"], rs["T"], Sk, k)
+        if sg:
+            return ("transform(X) of feature space and sample space differ by more than the sign of a component "
+                    "(column %d, max dev %.3g)" % sg), info
     # spectra: decreasing, equal to the non-zero spectrum of both modified matrices
     S_impl = rf["est"].singular_values_ ** 2
     if np.any(np.diff(S_impl) > 1e-9 * (1 + S_impl[0])):
@@ -140,6 +166,11 @@ def route_oracle(ds, cfg, quick_solvers=("arpack", "randomized")):
             if bad:
                 return "svd_solver=%s and full disagree in %s space on %s (max dev %.3g)" % (
                     (solver, sp) + bad), info
+            if info["sign_checked"]:
+                sg = X3.sign_check(recs[sp]["T"], r2["T"], Sk, k)
+                if sg:
+                    return ("svd_solver=%s and full disagree in %s space on transform(X) beyond the sign of a "
+                            "component (column %d, max dev %.3g)" % ((solver, sp) + sg)), info
     return None, info
 
 
@@ -197,12 +228,14 @@ def run(ctx):
     po = C.proof_obligations(ctx.prop)
     from skmatter.utils import pcovr_covariance, pcovr_kernel
     groups = gen_groups(ctx)
-    writer = P.CoqCases(autoflush=False)
+    writer = X3.CoqCases3(autoflush=False)
+    xcases = {}                      # case id -> ridge flag (cases with an entrywise report)
     cases = {}                       # id -> (ds, cfg, rec, gate)
     pairs = []                       # (tag, fid, sid, ds, cfg)
     stats = dict(families={}, regressors={}, mixing={"0": 0, "1": 0, "interior": 0}, y1d=0,
                  skipped_model={}, skipped_oracle={}, fit_errors=0, solver_fits=0, pairs=0,
-                 masked_components=0)
+                 masked_components=0, entrywise_cases=0, entrywise_skipped={}, dtype_fits={}, dtype_skipped={},
+                 sign_checked_pairs=0, int_dataset_cases=0)
     cid = 0
     viol = []
     pre1d_reported = 0
@@ -225,8 +258,32 @@ def run(ctx):
                     g = P.gate(mn, S_full, k, sample=sample) or P.regressor_gate(ds["X"], rec["W"], rec["Yh"])
                     stats["masked_components"] += int(np.sum(S_full[:k] <= P.TOL))
                     if g is None:
+                        al = X3.ridge_alpha(c)
+                        env = env + [np.array([[al if al is not None else 0.0]])]
                         writer.add(cid, ds["n"], ds["m"], ds["p"], k, ds["q"], sample, env, rec["obs"])
                         ids[sp] = cid
+                        # entrywise report with the svd contract as oracle (Model/PCovRC03.v)
+                        U_, s_, V_ = X3.svd_hints(mn["Kt"] if sample else mn["Ct"])
+                        why = (None if X3.simple_retained(S_full, k) else "retained eigenvalues not simple") or \
+                              (None if X3.sign_stable(U_, s_, k) else "svd_flip decision within rounding")
+                        if why is None:
+                            writer.add_extra(("x", cid), X3.x_term(writer, "c%d" % cid, U_, s_, V_, al is not None,
+                                                                   X3.observe_signed(rec["est"], ds)))
+                            xcases[cid] = al is not None
+                            stats["entrywise_cases"] += 1
+                        else:
+                            stats["entrywise_skipped"][why] = stats["entrywise_skipped"].get(why, 0) + 1
+                        # input-dtype family: the same integer-valued data as int64 / int32 / float32 / lists
+                        if ds.get("integer"):
+                            stats["int_dataset_cases"] += 1
+                            msg_d, done = X3.dtype_oracle(ds, c, rec["obs"], S_full, mn, sample)
+                            for kd, v in done.items():
+                                if v == "ok":
+                                    stats["dtype_fits"][kd] = stats["dtype_fits"].get(kd, 0) + 1
+                                else:
+                                    stats["dtype_skipped"][v] = stats["dtype_skipped"].get(v, 0) + 1
+                            if msg_d:
+                                viol.append((ds, c, msg_d, None))
                     else:
                         stats["skipped_model"][g] = stats["skipped_model"].get(g, 0) + 1
                 else:
@@ -251,6 +308,7 @@ def run(ctx):
             n_oracle += 1
             stats["solver_fits"] += info["solver_fits"]
             stats["route_comparison_training_data_only"] = stats.get("route_comparison_training_data_only", 0) + bool(info.get("train_only"))
+            stats["sign_checked_pairs"] += bool(info.get("sign_checked"))
             if info["skipped"]:
                 stats["skipped_oracle"][info["skipped"]] = stats["skipped_oracle"].get(info["skipped"], 0) + 1
             if msg:
@@ -313,6 +371,36 @@ def run(ctx):
             report(ctx, "correspondence broken: %s (model routes / pcovr_covariance / pcovr_kernel)" % bad,
                                dict(case=case_replay(ds, cfg), deviations=devs, correspondence="c03_cross (Model/PCovR.v)"),
                                found_input=False)
+    x_ok = 0
+    xdev_max = [0.0] * len(X3.X_OUT)
+    xres_max = [0.0] * len(X3.X_RES)
+    for c, ridge in xcases.items():
+        if ("x", c) not in extras:
+            continue
+        flags, vals = extras[("x", c)]
+        no = len(X3.X_OUT)
+        ok_out, ok_hyp, devs, ress = flags[:no], flags[no:], vals[:no], vals[no:]
+        for i, d in enumerate(devs):
+            xdev_max[i] = max(xdev_max[i], d)
+        for i, d in enumerate(ress):
+            xres_max[i] = max(xres_max[i], d)
+        if len(ok_out) == no and all(ok_out) and all(ok_hyp):
+            x_ok += 1
+            continue
+        ds, cfg, rec, g = cases[c]
+        bad_o = [X3.X_OUT[i] for i, b in enumerate(ok_out) if not b]
+        bad_h = [X3.X_RES[i] for i, b in enumerate(ok_hyp) if not b]
+        msg, _ = route_oracle(ds, cfg)
+        if msg:
+            viol.append((ds, cfg, msg, None))
+        else:
+            report(ctx, "correspondence PCovR model (svd oracle + svd_flip + truncation, entry by entry) vs implementation "
+                        "broken (%s space): outputs %s, hypotheses %s" % (cfg["space"], bad_o, bad_h),
+                   dict(case=case_replay(ds, cfg), deviations=devs, residuals=ress,
+                        correspondence="c03x_report (Model/PCovRC03.v)"), found_input=False)
+    stats["entrywise_validated"] = x_ok
+    stats["entrywise_deviation_max"] = dict(zip(X3.X_OUT, xdev_max))
+    stats["svd_contract_residual_max"] = dict(zip(X3.X_RES, xres_max))
     probe_viol = []
     solver_probe(ctx, stats, probe_viol)
     for msg, rep in probe_viol:
@@ -352,7 +440,9 @@ def run(ctx):
                trusted_base=C.TRUSTED_BASE_COMMON + [
                    "binary64 evaluation of the model agrees with the real-closed-field semantics up to rounding (rtol %g)" % P.RTOL,
                    "numpy eigh/svd/lstsq answers enter as oracle hints whose hypotheses' residuals are checked on the float side (eps %g)" % P.EPS_HYP,
-                   "ARPACK / randomized range finder are not modelled: compared with the full solver on the implementation side only"],
+                   "ARPACK / randomized range finder are not modelled: compared with the full solver on the implementation side only",
+                   "entrywise family: numpy's FULL svd of the model's modified matrix is the oracle (contract residuals checked inside Coq); svd_flip and the truncation [:k] are computed by the model (Model/PCovRC03.v); cases whose svd_flip decision or eigenvector basis is within rounding are skipped (counted)",
+                   "regressors: W and Yhat are read off the fitted estimator; the normal equations (X^T X + alpha I) W = X^T Y are checked as a residual (eps %g)" % X3.EPS_RIDGE],
                evaluations=len(cases) + stats["solver_fits"], distinct_nontrivial=nontrivial,
                rule="pairs (feature, sample) of fits of the same data; non-trivial = distinct pair compared inside Coq with 0 < mixing < 1 and k < numeric rank",
                traces_validated_against_impl=agree, route_pairs_validated=cross_ok,
@@ -361,7 +451,8 @@ def run(ctx):
                tolerances=dict(rtol=P.RTOL, atol=P.ATOL, eps_hypotheses=P.EPS_HYP, gap_min=P.GAP_MIN))
     return C.finish(ctx, "proof", cov,
                     ["theorems are over an arbitrary real closed field: IEEE rounding is outside them",
-                     "route equality assumes all k components retained and a spectral gap; the complementary eigenvectors are a hypothesis (spectral theorem not derived)",
+                     "route equality (now also with masked components) assumes a spectral gap between the retained eigenvalues and the rest; the complementary eigenvectors are a hypothesis (spectral theorem not derived)",
+                     "input dtypes: int64 / int32 / lists compared with float64 at the model tolerance; float32 only for well conditioned full-rank configurations at rtol 5e-3",
                      "truncated solvers are oracle answers: validated numerically, not modelled"])
 
 
@@ -385,5 +476,13 @@ def replay(ctx, obj):
     c = obj["case"]
     ds = P.ds_from_json(c["dataset"])
     msg, info = route_oracle(ds, c["config"])
+    if not msg and str(ds.get("family", "")).startswith("int_") and c["config"].get("space") in ("feature", "sample"):
+        cfg = c["config"]
+        r0 = run_fit(ds, cfg)
+        if "error" not in r0:
+            sample = cfg["space"] == "sample"
+            mn = P.model_np(ds["X"], r0["Yh"], cfg["a"])
+            S_full, _ = P.top_eig(mn["Kt"] if sample else mn["Ct"])
+            msg, _ = X3.dtype_oracle(ds, cfg, r0["obs"], S_full, mn, sample)
     print("replay:", msg or ("property holds on this input now" + (" (comparison gated: %s)" % info["skipped"] if info["skipped"] else "")))
     return 1 if msg else 0
